@@ -43,6 +43,7 @@ const (
 	tListInt
 	tListListK
 	tProof // an IPAProof value: (L, R, A_scalar)
+	tListListG // list of lists of group elements
 	tBig   // a big.Int holding the regular (non-Montgomery) integer value of a field element
 )
 
@@ -77,6 +78,8 @@ func (t lty) lean() string {
 		return "(List G × List G × K)"
 	case tBig:
 		return "Nat"
+	case tListListG:
+		return "List (List G)"
 	}
 	return "?"
 }
@@ -88,7 +91,7 @@ func (t lty) zero() string {
 	switch t {
 	case tK, tG:
 		return "0"
-	case tListK, tListBool, tListG, tListInt, tListListK:
+	case tListK, tListBool, tListG, tListInt, tListListK, tListListG:
 		return "[]"
 	case tInt, tBig:
 		return "0"
@@ -184,8 +187,10 @@ func goType(e ast.Expr) (lty, bool) {
 		return tBig, true
 	case "PointProj", "*PointProj":
 		return tG, true
-	case "[]PointProj", "[]PointAffine":
+	case "[]PointProj", "[]PointAffine", "[]bandersnatch.PointExtended", "[]bandersnatch.PointExtendedNormalized":
 		return tListG, true
+	case "windowsT", "[][]bandersnatch.PointExtended", "[][]bandersnatch.PointExtendedNormalized":
+		return tListListG, true
 	}
 	return 0, false
 }
@@ -263,6 +268,8 @@ func (t *loopTr) typeOf(e ast.Expr) lty {
 			return tInt
 		case tListListK:
 			return tListK
+		case tListListG:
+			return tListG
 		}
 		die("loops: %s: index into non-slice %s", t.cur.name, exprStr(x))
 	case *ast.SliceExpr:
@@ -280,6 +287,10 @@ func (t *loopTr) typeOf(e ast.Expr) lty {
 			return tK
 		case "len", "int", "uint64", "uint8", "uint32", "digit":
 			return tInt
+		case "batchToExtendedPointNormalized":
+			return tListG
+		case "ppScalarMul":
+			return tG
 		case "fr.BatchInvert", "BatchInvert", "computeBVector":
 			return tListK
 		case "append":
@@ -629,6 +640,10 @@ func (t *loopTr) valExpr(e ast.Expr) string {
 			return "(" + t.lookupFn("BatchInvert").name + " " + t.valExpr(x.Args[0]) + ")"
 		case "int", "uint64", "uint8", "uint32", "len", "digit":
 			return t.intExpr(e)
+		case "batchToExtendedPointNormalized":
+			return "(normalize " + t.valExpr(x.Args[0]) + ")"
+		case "ppScalarMul":
+			return "(ppScalarMul " + t.intExpr(x.Args[0]) + " " + t.valExpr(x.Args[1]) + " " + t.valExpr(x.Args[2]) + ")"
 		case "computeBVector":
 			return "(bvec " + t.valExpr(x.Args[1]) + ")"
 		case "append":
@@ -841,7 +856,7 @@ func (t *loopTr) assign(ind string, lhs ast.Expr, v string, define bool, vty lty
 		if in, ok := x.X.(*ast.IndexExpr); ok {
 			// `a[i][j] = v`  ==  `a[i] = (a[i] with [j] = v)`
 			b, ok := in.X.(*ast.Ident)
-			if !ok || t.vars[b.Name] != tListListK {
+			if !ok || (t.vars[b.Name] != tListListK && t.vars[b.Name] != tListListG) {
 				die("loops: %s: unsupported lvalue %s", t.cur.name, exprStr(lhs))
 			}
 			row := "(Loop.get " + b.Name + " " + t.intExpr(in.Index) + " [])"
@@ -1091,6 +1106,8 @@ func (t *loopTr) block(ind string, stmts []ast.Stmt, k string, cont string) {
 					el = "false"
 				case tListG:
 					el = "(0 : G)"
+				case tListListG:
+					el = "([] : List G)"
 				}
 				t.assign(ind, x.Lhs[0], "List.replicate ("+t.intExpr(c.Args[1])+").toNat "+el, define, ty)
 				continue
